@@ -176,7 +176,10 @@ def check_C04(ctx):
     os.environ["KGEN_STATUSGC"] = "1"     # the valid/swaps profiles then also call StatusAttrib::garbage_collection
     kernel_property(ctx, "C04", "Props/Properties_C04.v", ["gc", "valid", "recycle", "swaps"], {"GC", "EnDef", "StatusGC"},
                     assumptions=["proved: counters/modes/sizes after collection in every state; 'the logical mesh is unchanged' and handle tracking are tied by lock step "
-                                 "(incl. StatusAttrib::garbage_collection with tracking and the manifoldness option) and decided on the real library by the identity-token oracle"])
+                                 "(incl. StatusAttrib::garbage_collection with tracking and the manifoldness option) and decided on the real library by the identity-token oracle",
+                                 "Properties_C04_gc.v (Kernel3/Gc*.v): collect_garbage yields exactly the logical mesh (rank renumbering; fast mode: a bijection), equals immediate "
+                                 "deletion (single and lists of deletions), gc_ready holds after every deferred history, StatusAttrib tracking and the manifoldness pass characterised"])
+    also_prove_file(ctx, "Props/Properties_C04_gc.v")
 
 def check_C01(ctx):
     kernel_property(ctx, "C01", "Props/Properties_C01.v", ["valid", "toggles", "recycle", "setops", "swaps"],
